@@ -74,7 +74,9 @@ def gen_case(draw):
     return dict(
         num_x=draw(st.integers(2, 12)),
         num_y=2 * k + (0 if even else 1),
-        wing_type=draw(st.sampled_from(["rect", "rect", "CRM", "CRM:jig", "CRM:alpha_2.75"])),
+        wing_type=draw(st.sampled_from(["rect", "rect", "rect", "CRM", "CRM:jig", "CRM:alpha_2.75", "CRM:alpha_2.50", "CRM:alpha_3.00",
+                                        "CRM:alpha_3.25", "CRM:alpha_3.50", "CRM:alpha_3.75", "CRM:alpha_4.00",
+                                        "CRM:jig_wind_tunnel", "uCRM_based"])),
         span=draw(S.logfl(-2.0, 3.0, 10.0)),
         root_chord=draw(S.logfl(-2.0, 3.0, 1.0)),
         span_cos=draw(S.fl(0.0, 1.0, 0.0, 1.0)),
